@@ -1510,7 +1510,8 @@ class _GroupElem(ABC):
 
         # Check that there are no excess nodes
         # It is possible that the nodes entered do not belong to the group
-        if connect_n_e.shape[0] <= nodes.max():  # type: ignore
+        nodes = np.asarray(nodes, dtype=int)
+        if nodes.size > 0 and connect_n_e.shape[0] <= nodes.max():
             # Remove all excess nodes
             nodes = nodes[nodes < self.Nn]
 
